@@ -4,6 +4,8 @@ import (
 	"crypto/sha256"
 	"encoding/hex"
 	"fmt"
+	banktypes "github.com/cosmos/cosmos-sdk/x/bank/types"
+	"pgregory.net/rapid"
 	"strconv"
 	"time"
 
@@ -293,4 +295,17 @@ func (tc *twoChain) registerBridgeInfo() {
 	}
 	tc.infoSet = true
 	tc.logf("bridge info registered on L2")
+}
+
+// presetBankMetadata writes display metadata for an L2 denom into the bank module before the bridge has
+// seen the token (an operator's bank genesis can contain it): either the plain form (display = base) or
+// one with a display unit of another name, as wallets like it. The bridge's denom pair is a different
+// record; the metadata says nothing about where the token comes from.
+func presetBankMetadata(rt *rapid.T, l2 *henv.L2, d string) {
+	md := banktypes.Metadata{Base: d, Display: d, Name: "preset", Symbol: "PRE", DenomUnits: []*banktypes.DenomUnit{{Denom: d, Exponent: 0}}}
+	if rapid.Bool().Draw(rt, "prettyDisplayUnit") {
+		md.Display = "pretty"
+		md.DenomUnits = append(md.DenomUnits, &banktypes.DenomUnit{Denom: "pretty", Exponent: 6})
+	}
+	l2.BK.SetDenomMetaData(l2.Ctx, md)
 }
